@@ -6,12 +6,14 @@ package c15
 import (
 	"bytes"
 	"fmt"
+	"net"
 	"sort"
 	"sync"
 	"testing"
 	"testing/synctest"
 	"time"
 
+	"github.com/hashicorp/memberlist"
 	"pgregory.net/rapid"
 
 	"verif/harness/cluster"
@@ -164,6 +166,11 @@ func run(pl Plan) (res vfx.Result) {
 			to := mem[(s+1)%len(mem)]
 			_ = from.M.SendBestEffort(to, append([]byte("be-"), canary...))
 			_ = from.M.SendReliable(to, append([]byte("rel-"), canary...))
+			// the older entry points reach the transport through the same two paths; they are send sites all the same
+			_ = from.M.SendTo(&net.UDPAddr{IP: net.IP(to.Addr), Port: int(to.Port)}, append([]byte("to-"), canary...))
+			_ = from.M.SendToAddress(memberlist.Address{Addr: to.Address(), Name: to.Name}, append([]byte("toaddr-"), canary...))
+			_ = from.M.SendToUDP(to, append([]byte("toudp-"), canary...))
+			_ = from.M.SendToTCP(to, append([]byte("totcp-"), canary...))
 			from.Rec.QueueUser(append([]byte("gossip-"), canary...))
 			from.Rec.SetMeta(append([]byte(fmt.Sprintf("meta%d-", s)), canary...))
 			_ = from.M.UpdateNode(time.Second)
